@@ -244,6 +244,14 @@ func (w *walker) walkStruct(root *Node, p path, sp *spec, inPayload, top bool) {
 			o := at(r, p)
 			o.Obj = append(o.Obj, Member{strings.ToUpper(key), otherValue(f.sp)})
 		})
+		if f.sp.kind == "slice" {
+			// three members for one slice field: the third re-uses what the first left in the backing array
+			w.addP("tripledup@"+lvl, "two more members for "+where+": a one-element array, then an array of nulls", vNone, func(r *Node) {
+				o := at(r, p)
+				one := otherValue(f.sp)
+				o.Obj = append(o.Obj, Member{key, Arr(one.Arr[0])}, Member{key, Arr(Null(), Null(), Null())})
+			})
+		}
 		// retype
 		for k, wv := range wrongValues(f.sp.kind) {
 			wv := wv
